@@ -482,6 +482,10 @@ fn gen_fm_doc(r: &mut Rng, corpus: &Corpus) -> (String, String) {
     let mut s = String::new();
     if r.chance(1, 10) {
         s.push_str(BOM);
+        // two files that each carry a mark, concatenated: the second mark is content of line 1
+        if r.chance(1, 4) {
+            s.push_str(BOM);
+        }
     }
     match r.below(14) {
         0 => s.push_str(r.ps(&["\n", " ", "x", "\t", "x\n"])), // not at the very start
